@@ -107,6 +107,7 @@ pub struct WriterRig {
   mr: crate::rtps::message_receiver::MessageReceiver,
   acknack_receiver: mio_channel::Receiver<(GuidPrefix, AckSubmessage)>,
   _spdp_liveness_receiver: mio_channel::Receiver<GuidPrefix>,
+  keep: Vec<Box<dyn std::any::Any>>,
 }
 
 impl WriterRig {
@@ -154,6 +155,7 @@ impl WriterRig {
       mr,
       acknack_receiver,
       _spdp_liveness_receiver: spdp_liveness_receiver,
+      keep: vec![],
       writer,
       cmd_sender,
       status_receiver,
@@ -164,6 +166,67 @@ impl WriterRig {
       wait_completed: false,
       guid,
     }
+  }
+
+  /// A WriterRig plus a real `DataWriter<VSample>` whose command queue (capacity 16, as in
+  /// Publisher::create_datawriter) and waker slot are the ones the Writer reads.
+  pub fn new_with_datawriter(
+    qos: &QosPolicies,
+    guid: [u8; 16],
+  ) -> (Self, crate::dds::with_key::DataWriter<super::VSample>) {
+    let mut rig = Self::new_with_qos(qos, None, guid);
+    // replace the command channel by one shared with a DataWriter
+    let (cmd_sender, cmd_receiver) = mio_channel::sync_channel::<WriterCommand>(16);
+    let waker_slot = Arc::new(Mutex::new(None));
+    let (status_sender, status_receiver) = sync_status_channel::<DataWriterStatus>(4096).unwrap();
+    let (participant_status_sender, participant_status_receiver) =
+      sync_status_channel::<DomainParticipantStatusEvent>(4096).unwrap();
+    let ing = WriterIngredients {
+      guid: guid_from_bytes(guid),
+      writer_command_receiver: cmd_receiver,
+      writer_command_receiver_waker: waker_slot.clone(),
+      topic_name: super::TOPIC_NAME.to_string(),
+      like_stateless: false,
+      qos_policies: qos.clone(),
+      status_sender,
+      security_plugins: None,
+    };
+    rig.writer = Writer::new(
+      ing,
+      Rc::new(UDPSender::new(0).unwrap()),
+      mio_extras::timer::Builder::default().build(),
+      participant_status_sender,
+    );
+    rig.cmd_sender = cmd_sender.clone();
+    rig.waker_slot = waker_slot.clone();
+    rig.participant_status_receiver = participant_status_receiver;
+    let sh = super::shared();
+    let publisher = sh.dp.create_publisher(&QosPolicies::qos_none()).unwrap();
+    let (discovery_command_sender, discovery_command_receiver) =
+      mio_channel::sync_channel::<crate::discovery::discovery::DiscoveryCommand>(64);
+    let (_dw_status_sender, dw_status_receiver) =
+      sync_status_channel::<DataWriterStatus>(4).unwrap();
+    let dw = crate::dds::with_key::DataWriter::<super::VSample>::new(
+      publisher,
+      sh.topic_with_key.clone(),
+      qos.clone(),
+      guid_from_bytes(guid),
+      cmd_sender,
+      waker_slot,
+      discovery_command_sender,
+      dw_status_receiver,
+    )
+    .unwrap();
+    rig.keep.push(Box::new(discovery_command_receiver));
+    rig.keep.push(Box::new(_dw_status_sender));
+    (rig, dw)
+  }
+
+  /// `Writer::process_writer_command` (what the event loop does when the command channel is readable)
+  pub fn process_commands(&mut self) -> Vec<net::Sent> {
+    self.begin();
+    self.writer.process_writer_command();
+    net::capture_take()
   }
 
   fn begin(&self) {
